@@ -1,7 +1,7 @@
 """C04 — Every request gets exactly one outcome."""
 import re
 
-from analysis import (cmp_intervals, peel_await, Prov, Guards, fmt, fmt_short, walk, roots, short, comparison, find_calls, callee_matches,
+from analysis import (option_edges, membership_test, cmp_intervals, peel_await, Prov, Guards, fmt, fmt_short, walk, roots, short, comparison, find_calls, callee_matches,
                       must_pass, path_to, describe_path, normalised_cmp, const_int_of, contains_call)
 from facts import AnchorError, strip_closure
 from harness import Rule, guarded
@@ -388,17 +388,25 @@ def r2(ctx):
     addr = None
     chal = []
     wait = []
+    # "a challenge is outstanding" in any spelling: get(..).is_some(), contains_key, `if let Some(_) = get(..)`, matches!
+    _cs, _cn = option_edges(gs, lambda x: x[0] == "call" and re.search(r"HashMapDelay(<.*>)?::get$", short(x[1])) and fmt_short(x[2][0]) == "self.active_challenges")
+    chal += _cs
     for bi, t, e in gs.switches():
-        neg = False
-        while e[0] == "un" and e[1] == "Not":
-            e, neg = e[2], not neg
-        f_, tr_ = gs.bool_edges(bi) if e[0] == "call" else (None, None)
-        if e[0] == "call" and short(e[1]).endswith("Option::is_some") and e[2][0][0] == "call" and short(e[2][0][1]).endswith("HashMapDelay::get") and \
-                fmt_short(e[2][0][2][0]) == "self.active_challenges":
-            chal.append((bi, tr_ if not neg else f_))          # the edge on which a challenge is outstanding
-            addr = fmt_short(e[2][0][2][1])
-        if e[0] == "call" and e[1] == H + "is_awaiting_session_to_be_established":
-            wait.append((bi, tr_ if not neg else f_, fmt_short(e[2][1])))
+        if e[0] == "discr" or (e[0] == "call" and re.search(r"Option::is_(some|none)$", short(e[1]))) or (e[0] == "un"):
+            for x in walk(e):
+                if x[0] == "call" and re.search(r"HashMapDelay(<.*>)?::get$", short(x[1])) and fmt_short(x[2][0]) == "self.active_challenges":
+                    addr = fmt_short(x[2][1])
+        mt = membership_test(e)
+        if mt is not None and fmt_short(mt[0]) == "self.active_challenges" and "contains" in fmt_short(e):
+            f_, tr_ = gs.bool_edges(bi)
+            chal.append((bi, f_ if mt[2] else tr_))
+            addr = fmt_short(mt[1])
+        inner, neg = e, False
+        while inner[0] == "un" and inner[1] == "Not":
+            inner, neg = inner[2], not neg
+        if inner[0] == "call" and inner[1] == H + "is_awaiting_session_to_be_established":
+            f_, tr_ = gs.bool_edges(bi)
+            wait.append((bi, tr_ if not neg else f_, fmt_short(inner[2][1])))
     r = sr.reachable(0, removed_edges=chal + [(a_, b_) for a_, b_, _ in wait])
     rule.check(bool(chal) and bool(wait) and not any(x in r for x in pushes) and all(w[2] == addr for w in wait),
                "send_request queues only past active_challenges.get(addr).is_some() or is_awaiting_session_to_be_established(addr)", "send_request|queue-guard",
@@ -409,17 +417,10 @@ def r2(ctx):
     pw = Prov(aw, facts)
     gw = Guards(aw, pw, facts)
     nosess = []
-    for bi, t, e in gw.switches():
-        neg = False
-        while e[0] == "un" and e[1] == "Not":
-            e, neg = e[2], not neg
-        if e[0] == "call" and re.search(r"Option::is_(some|none)$", short(e[1])) and e[2][0][0] == "call" and re.search(r"LruTimeCache::(get|get_mut|peek)$", short(e[2][0][1])) and \
-                fmt_short(e[2][0][2][0]) == "self.sessions" and fmt_short(e[2][0][2][1]) == (aw.local_name(2) or "node_address"):
-            f_, tr_ = gw.bool_edges(bi)
-            some = short(e[1]).endswith("is_some") != neg
-            nosess.append((bi, f_ if some else tr_))
-        if e[0] == "discr" and e[1][0] == "call" and re.search(r"LruTimeCache::(get|get_mut|peek)$", short(e[1][1])) and fmt_short(e[1][2][0]) == "self.sessions":
-            nosess += [(bi, tb) for v, tb in t.vals if v == 0]
+    pn = aw.local_name(2) or "node_address"
+    _ss, _sn = option_edges(gw, lambda x: x[0] == "call" and re.search(r"LruTimeCache(<.*>)?::(get|get_mut|peek)$", short(x[1])) and fmt_short(x[2][0]) == "self.sessions" and
+                            fmt_short(x[2][1]) == pn)
+    nosess += _sn
     # returns that may be true: every definition of the return place that is not the constant false
     may_true = [blk for lhs, kind, payload, blk, _l in pw.defs.get(0, ()) if not (kind == "rv" and payload.k == "use" and payload.ops[0].const_int() == 0)]
     rr = aw.reachable(0, removed_edges=nosess)
